@@ -413,7 +413,7 @@ impl Property for C20 {
          oracle = in-memory model: ordered list of (media type, message, annotations); non-trivial = >=3 layers of >=2 kinds with a non-empty annotation map; distinct = sha256(history)"
     }
     fn required_labels(&self) -> Vec<String> {
-        ["kind=instance", "kind=parametric-instance", "kind=solution", "kind=sample-set", "empty-message", "same-message-twice", "wrong-kind-request", "non-ommx-image", "non-ommx-image-without-artifact-type", "zero-layers", "created-time", "user-defined-key", "identical-blob-different-kind", "reopened", "first-author-starts-with-blank", "author-with-outer-blank", "sample-set-in-1.6-layout"].iter().map(|s| s.to_string()).collect()
+        ["kind=instance", "kind=parametric-instance", "kind=solution", "kind=sample-set", "empty-message", "same-message-twice", "wrong-kind-request", "non-ommx-image", "non-ommx-image-without-artifact-type", "zero-layers", "created-time", "user-defined-key", "identical-blob-different-kind", "identical-nonempty-blob-different-kind", "reopened", "first-author-starts-with-blank", "author-with-outer-blank", "sample-set-in-1.6-layout"].iter().map(|s| s.to_string()).collect()
     }
     fn cases(&self, tier: Tier) -> usize {
         match tier {
@@ -506,6 +506,7 @@ impl Property for C20 {
         cfg.max_removed = 1;
         cfg.func.max_terms = 3;
         let mut layers: Vec<Layer> = vec![];
+        let mut twin: Option<v1::Instance> = None;
         for (a, b) in &plan {
             let kind = (*a % 4) as usize;
             let shape = *b % 5; // 0 empty/default, 1 repeat an earlier message of this kind, else generated
@@ -529,6 +530,25 @@ impl Property for C20 {
                         Layer::Parametric(m, _) => Layer::Parametric(m, ann),
                         Layer::Solution(m, _) => Layer::Solution(m, ann),
                         Layer::SampleSet(m, _) => Layer::SampleSet(m, ann),
+                    }
+                }
+                (0 | 1, 2, _) => {
+                    // a template without objective, constraints and sense: as a plain instance and as a parametric
+                    // instance it is the same non-empty byte string (the two messages share their field numbers)
+                    if twin.is_none() {
+                        let mut m = gen_instance(t, &cfg, ctx).inst;
+                        m.objective = None;
+                        m.constraints.clear();
+                        m.sense = 0;
+                        m.parameters = None;
+                        twin = Some(m);
+                    }
+                    let m = twin.clone().unwrap();
+                    ctx.label("variables-only-template");
+                    if kind == 0 {
+                        Layer::Instance(m, ann)
+                    } else {
+                        Layer::Parametric(m.into(), ann)
                     }
                 }
                 (0, 0, _) => {
@@ -595,6 +615,9 @@ impl Property for C20 {
                 for b in &blobs[i + 1..] {
                     if a.0 != b.0 && a.1 == b.1 {
                         ctx.label("identical-blob-different-kind");
+                        if !a.1.is_empty() {
+                            ctx.label("identical-nonempty-blob-different-kind");
+                        }
                     }
                 }
             }
